@@ -238,8 +238,12 @@ def run(ctx):
         "build) are tied to the Go code by C02's and C01's own checks, and H2 (installed domain bitmap = MatchDomainBitmap) by C10/C11",
         "the control plane's consumers of the record run from a verbatim copy of their statements (head of handleConn in tcp.go; cache "
         "probe / RetrieveRoutingResult / error switch / cache update of the UDP ingress task in control_plane.go), regenerated from /repo "
-        "on every run by consumer_glue (checks/c03.py): the surrounding code (DNS fast paths, handlePkt, goroutine dispatch) is not "
-        "executed; time.Now/Since/timers are virtual (testing/synctest), CLOCK_MONOTONIC is real",
+        "and the record lookup of the DNS ingress fast path, regenerated from /repo "
+        "on every run by consumer_glue (checks/c03.py): the surrounding code (ChooseNatTimeout / DNS controller, handleTCPDnsFastPath, "
+        "handlePkt, goroutine dispatch) is not executed; time.Now/Since/timers are virtual (testing/synctest), CLOCK_MONOTONIC is real",
+        "endpoint teardown is executed as UdpEndpoint.TrackUdpConnStateTuplePair + Close on a fresh endpoint owned by the test's "
+        "controlPlaneCore (last owner); the pool janitor / NAT timeouts that decide WHEN an endpoint is closed are not executed",
+        "bpf(2) map creation is required (real kernel hash maps for the second pass); without it the check exits 2, never OK",
         "bpf_sk_assign / bpf_skb_change_type are recorded by the native driver (return values ignored by the programs), listen_socket_map "
         "is a 3-slot table: the kernel's socket assignment and policy routing behind dae0peer are not modelled",
         "shim headers harness/c/headers (UAPI struct layouts, little-endian host = bpfel target)",
